@@ -122,7 +122,18 @@ impl<S> AllowStd<S> {
     }
 
     pub fn finish_handshake(&mut self) {
+        #[cfg(compio_verif)]
+        crate::verif::emit(crate::verif::FINISH_HANDSHAKE, 0, 0, 0);
         self.inner.handshaken = true;
+    }
+}
+
+#[cfg(compio_verif)]
+impl<S> AllowStd<S> {
+    fn verif_exit<T>(&self, res: &io::Result<T>, n: impl FnOnce(&T) -> u64) {
+        let (kind, count) = crate::verif::io_result(res, n);
+        let flags = self.inner.written as u64 + 2 * self.inner.handshaken as u64;
+        crate::verif::emit(crate::verif::CB_EXIT, kind, count, flags);
     }
 }
 
@@ -153,7 +164,16 @@ impl<S> Read for AllowStd<S>
 where
     S: AsyncRead + AsyncWrite + Unpin,
 {
+    #[cfg_attr(compio_verif, allow(unreachable_code))]
     fn read(&mut self, buf: &mut [u8]) -> io::Result<usize> {
+        #[cfg(compio_verif)]
+        {
+            use crate::verif::{CB_ENTER, CB_READ, emit};
+            emit(CB_ENTER, CB_READ, buf.len() as u64, 0);
+            let res = self.with_context(|ctx, stream| stream.poll_read(ctx, buf));
+            self.verif_exit(&res, |n| *n as u64);
+            return res;
+        }
         self.with_context(|ctx, stream| stream.poll_read(ctx, buf))
     }
 }
@@ -162,11 +182,29 @@ impl<S> Write for AllowStd<S>
 where
     S: AsyncWrite + Unpin,
 {
+    #[cfg_attr(compio_verif, allow(unreachable_code))]
     fn write(&mut self, buf: &[u8]) -> io::Result<usize> {
+        #[cfg(compio_verif)]
+        {
+            use crate::verif::{CB_ENTER, CB_WRITE, emit};
+            emit(CB_ENTER, CB_WRITE, buf.len() as u64, 0);
+            let res = self.with_context(|ctx, stream| stream.poll_write(ctx, buf));
+            self.verif_exit(&res, |n| *n as u64);
+            return res;
+        }
         self.with_context(|ctx, stream| stream.poll_write(ctx, buf))
     }
 
+    #[cfg_attr(compio_verif, allow(unreachable_code))]
     fn flush(&mut self) -> io::Result<()> {
+        #[cfg(compio_verif)]
+        {
+            use crate::verif::{CB_ENTER, CB_FLUSH, emit};
+            emit(CB_ENTER, CB_FLUSH, 0, 0);
+            let res = self.with_context(|ctx, stream| stream.poll_flush(ctx));
+            self.verif_exit(&res, |_| 0);
+            return res;
+        }
         self.with_context(|ctx, stream| stream.poll_flush(ctx))
     }
 }
